@@ -13,10 +13,12 @@ RULE = ("case = (generator type, construction path, jds, motif sizes, build call
         "cases are HISTORIES: 2-3 generations on the same algorithm object and the same jds list object (contents "
         "replaced in place, the previously returned object damaged in between, identical repeats), every call judged "
         "against the model on the current contents; inputs and configuration are deep-compared before/after. Compared: sequence "
-        "of (callback, argument list) calls, the three columns (or the graph), joint_degrees, shuffle protocol. "
+        "of (callback, argument list) calls, the three columns (network variant: the graph, exactly, against the composed "
+        "model gen_network), joint_degrees, shuffle protocol. "
         "Non-trivial = a valid case with at least two callback calls; distinct by (type, jds, sizes, indices, pis)")
 EXHAUSTIVE = {"quick": True, "thorough": True}
-EXPLANATION = ("general theorems (all jds, sizes, callbacks, permutations) in Props/C01.v; the correspondence is "
+EXPLANATION = ("general theorems (all jds, sizes, callbacks, permutations) in Props/C01.v, incl. the network variant as "
+               "the Coq composition of the generator model with the conversion model (C01_network_variant); the correspondence is "
                "exhaustive over the small family named in the rule (all permutations) and seeded-random beyond")
 ASSUMPTIONS = ["random.shuffle(l) is the only randomness the generators use (enforced: every other random/numpy.random "
                "entry point raises during a run)",
@@ -33,11 +35,22 @@ LEVEL_TEXT = (
     "hypothesis the fast/network and custom-motif models make exactly sum_v jds[v][k]/size_k callback calls per "
     "topology, each on size_k stubs (custom: one partition per orbit), every vertex v occupies exactly jds[v][k] "
     "slots of topology k, no vertex outside 0..N-1 occurs, joint_degrees is carried unchanged, and the factory / "
-    "load_gcm_algorithm dispatch equals direct construction. The checker c01_check is proved equivalent to the "
+    "load_gcm_algorithm dispatch equals direct construction. Network variant as a COMPOSITION (Model/GenNet.v: "
+    "gen_network = Conv.to_network applied to the fast generator's edge list, as in gcm_algorithm_network.py; "
+    "C01_network_variant, general, same hypotheses): the returned network has exactly the vertices 0..N-1, each "
+    "annotated with jds[v]; its edge set is the set of callback edges (unordered pairs, each once); a pair produced "
+    "once carries its row's name and id; when no unordered pair is produced twice the network has one edge per row "
+    "and every edge of motif instance d of topology j carries (name_j, id d); C01_network_converts_back: "
+    "NetworkToEdgeList on the generated network always succeeds and returns jds and one row per generated pair "
+    "(the generated list itself when no pair repeats); C01_network_errors / _total: it fails exactly as the fast "
+    "generator does. The checker c01_check is proved equivalent to the "
     "Prop-level specification and is run on the real generators' logged callback calls (plus the proved-equivalent closedness test: every motif's edges use only its own stubs); the model is tied to "
     "/repo by exact comparison under scripted shuffles (exhaustive small family, all permutations, all three "
     "types, all three construction paths).")
-LEVEL_NOTE = ("Trusted: Coq kernel; extraction + OCaml driver + Python harness for the correspondence; "
+LEVEL_NOTE = ("The network theorems speak about gen_network (Gallina composition), which is also extracted (entry "
+              "c01_net_run): for every network-variant case the real networkx graph is compared EXACTLY with the composed "
+              "model's network - node ids, node annotations, edge set and the (name, id) on every edge, for repeated pairs "
+              "the one the modelled dict order leaves (before: only 'one of the rows of the pair'). Trusted: Coq kernel; extraction + OCaml driver + Python harness for the correspondence; "
               "iteration_utilities.grouper modelled, not verified. Print Assumptions: closed under the global context.")
 
 
@@ -75,16 +88,66 @@ def impl(case):
     return G.impl_case(case)
 
 
+def _net_steps(case):
+    """indices of the steps run by the network variant (all or none: the tag is per case)"""
+    steps = G.steps_of(case)
+    return [i for i, st in enumerate(steps) if st["tag"] == G.NETWORK]
+
+
 def model_calls(case, impl_obs):
-    return G.model_calls_case("c01_run", case)
+    # network variant: besides the fast model's columns (c01_run) the COMPOSED model gen_network = Conv.to_network on
+    # the fast generator's list (Model/GenNet.v, entry c01_net_run) is run; the real graph is compared with it exactly
+    steps = G.steps_of(case)
+    return G.model_calls_case("c01_run", case) + [("c01_net_run", G.model_tree(steps[i])) for i in _net_steps(case)]
+
+
+def _dec_net(raw):
+    if isinstance(raw, str):
+        return ["!model", raw]
+    if G.is_err_tree(raw):
+        return ["!exc", G.ERR.get(raw[1], "code%d" % raw[1])]
+    calls, (nodes, edges) = raw
+    nodes = sorted(nodes)
+    return {"calls": calls, "nodes": [v for v, _ in nodes], "jds_out": [jd[0] if jd else -1 for _, jd in nodes],
+            "net_edges": sorted([e[0], e[1]] + (list(a) if a else [-1, -1]) for e, a in edges)}
 
 
 def model_obs(case, raws):
-    return G.model_obs_case(raws)
+    n = len(G.steps_of(case))
+    m = G.model_obs_case(raws[:n])
+    for i, raw in zip(_net_steps(case), raws[n:]):
+        if isinstance(m[i], dict):
+            m[i] = dict(m[i], net=_dec_net(raw))
+    return m
+
+
+def _compare_net(impl, model):
+    """the real networkx graph vs the composed model: node ids, node annotations, edge set, and on EVERY edge exactly
+    the (name, id) the model's conversion leaves there (for a repeated pair: the modelled dict order decides)"""
+    net = model.get("net")
+    if net is None:
+        return None
+    if not isinstance(net, dict):
+        return "composed network model: %r although the fast model returned" % (net,)
+    if net["calls"] != model["calls"]:
+        return "composed network model made other callback calls than the fast model"
+    for f in ("nodes", "jds_out", "net_edges"):
+        if impl[f] != net[f]:
+            return "graph %s: impl %r composed model %r" % (f, impl[f], net[f])
+    return None
 
 
 def compare(case, impl_obs, model):
-    return G.compare_case(case, impl_obs, model)
+    d = G.compare_case(case, impl_obs, model)
+    if d or G.is_exc(impl_obs):
+        return d
+    steps = G.steps_of(case)
+    for i in _net_steps(case):
+        if isinstance(model[i], dict) and isinstance(impl_obs["steps"][i], dict) and "net_edges" in impl_obs["steps"][i]:
+            d = _compare_net(impl_obs["steps"][i], model[i])
+            if d:
+                return d if len(steps) == 1 else "step %d of %d on the same object: %s" % (i, len(steps), d)
+    return None
 
 
 def check_calls(case, impl_obs):
